@@ -25,11 +25,11 @@ import (
 func TestMain(m *testing.M) { evid.Main(m, "C08") }
 
 type replayCase struct {
-	Kind      string        `json:"kind"` // "modules" | "manifest" | "workspace"
-	Modules   *Case         `json:"modules,omitempty"`
-	Manifest  *manifestCase `json:"manifest,omitempty"`
-	Workspace *wsCase       `json:"workspace,omitempty"`
-	Hint     map[string]string `json:"hint,omitempty"`
+	Kind      string            `json:"kind"` // "modules" | "manifest" | "workspace"
+	Modules   *Case             `json:"modules,omitempty"`
+	Manifest  *manifestCase     `json:"manifest,omitempty"`
+	Workspace *wsCase           `json:"workspace,omitempty"`
+	Hint      map[string]string `json:"hint,omitempty"`
 }
 
 func canon(v any) string {
